@@ -174,6 +174,10 @@ impl Drop for DropGuard {
 // Direct-drive wrappers
 //
 
+// (`--cfg bmwill_anemo_verif_nodirect` leaves these wrappers out: they name crate-private types and
+// signatures, so a refactor of those can stop them from compiling while the event hooks and gates
+// above still do; the harness then builds without them and runs what does not need them.)
+#[cfg(not(bmwill_anemo_verif_nodirect))]
 pub mod direct {
     use crate::{
         config::EndpointConfig,
